@@ -37,6 +37,9 @@ Notation Koppart := (oppart K).
 Fixpoint ksum {A : Type} (f : A -> K) (l : list A) : K :=
   match l with [] => 0 | a :: t => f a + ksum f t end.
 
+Lemma kadd_0_l (x : K) : 0 + x = x.
+Proof. ring. Qed.
+
 Lemma fold_left_ksum {A} (f : A -> K) (l : list A) (x : K) :
   fold_left (fun acc a => acc + f a) l x = x + ksum f l.
 Proof. revert x. induction l as [|a t IH]; intros x; cbn [fold_left ksum]; [ring|rewrite IH; ring]. Qed.
@@ -259,15 +262,14 @@ Proof.
   intros L. unfold part_fock_average.
   rewrite (fold_left_nested_k (fun sw fv => pre (snd sw) (fst fv) * kabs (snd fv * snd fv))
                               (fun sw => combine (hp_states K hp) (col K 0 (hp_vec K hp) (fst sw)))).
-  transitivity (ksum (fun sw => ksum (fun fv => pre (snd sw) (fst fv) * kabs (snd fv * snd fv))
-                                     (combine (hp_states K hp) (col K 0 (hp_vec K hp) (fst sw)))) (enum (dp_weights K dp))); [ring|].
+  rewrite kadd_0_l. fold (enum (dp_weights K dp)).
   apply ksum_ext. intros sw _. rewrite (combine_col_enum_k _ _ _ L), ksum_map.
   apply ksum_ext. intros p _. cbn [fst snd]. unfold vcompK. rewrite kabs_sq. reflexivity.
 Qed.
 
 Lemma dm_sum_parts_sumK (f : Khpart -> Kdmpart -> K) :
   dm_sum_parts K 0 kadd f H D = ksum (fun hd => f (fst hd) (snd hd)) (combine H D).
-Proof. unfold dm_sum_parts. rewrite (fold_left_ksum (fun hd => f (fst hd) (snd hd))). ring. Qed.
+Proof. unfold dm_sum_parts. rewrite (fold_left_ksum (fun hd => f (fst hd) (snd hd))). apply kadd_0_l. Qed.
 
 (** weighted sums over |eigenvector components|^2 times a function of the Fock state = Tr(rho diag(d)) *)
 Theorem fock_average_is_traceK (pre : K -> nat -> K) (d : nat -> K) :
@@ -327,8 +329,7 @@ Proof.
   intros Heig Hnorm Hsz. rewrite trace_eigen_formK. unfold dm_average_energy.
   rewrite dm_sum_parts_sumK. unfold sum_statesK. apply ksum_ext. intros [hp dp] Hhd. cbn [fst snd].
   destruct (in_combine_H _ _ _ Hhd) as [Hhp _]. cbn [fst] in Hhp.
-  unfold part_average_energy. rewrite (fold_left_ksum (fun we => fst we * snd we)).
-  transitivity (ksum (fun we : K * K => fst we * snd we) (combine (dp_weights K dp) (hp_eig K hp))); [ring|].
+  unfold part_average_energy. rewrite (fold_left_ksum (fun we => fst we * snd we)), kadd_0_l.
   rewrite ksum_combine_enum.
   apply ksum_ext. intros [s w] Hsw. cbn [fst snd]. f_equal.
   destruct (in_enum _ _ _ Hsw) as [Ls _]. specialize (Hsz (hp, dp) Hhd). cbn [fst snd] in Hsz. rewrite Hsz in Ls.
@@ -347,7 +348,7 @@ Lemma ea_compute_sumK (p : Koppart) (dp : Kdmpart) :
   ea_compute K 0 kadd kmul p dp = ksum (fun i => coeff K 0 (op_mat K p) i i * nth i (dp_weights K dp) 0) (seq 0 (length (op_mat K p))).
 Proof.
   unfold ea_compute.
-  rewrite (fold_left_ksum (fun i => coeff K 0 (op_mat K p) i i * nth i (dp_weights K dp) 0)). ring.
+  rewrite (fold_left_ksum (fun i => coeff K 0 (op_mat K p) i i * nth i (dp_weights K dp) 0)). apply kadd_0_l.
 Qed.
 
 Definition ea_termK (D0 : list Kdmpart) (p : Koppart) : K :=
